@@ -11,7 +11,7 @@ CFG = {
     "rule": "transactions with boundary/random contents (nonce 0/max uint64, data of 0/1/55/56/300 bytes, contract creation, zero address) signed with "
             "the real SignTx under Frontier, Homestead and EIP-155 signers over a chain-id lattice (1, 110 = the V 255/256 straddle, the real networks, "
             "2^63-19..2^63+1 and 2^64-19..2^64+1 = the uint64 paths, 2^70, 2^128, 2^200, ~2^254, random, and 0); per signed tx: ~30 single-field / "
-            "signature-component mutations (incl. chain-id shift, S->N-S, the malleated twin), every other signer kind / neighbouring chain id, single-bit "
+            "signature-component mutations (incl. chain-id shift, S->N-S, the malleated twin, V + 256k / V + 2^63 / V + 2^64 and every single-bit flip of V up to bit 70), every other signer kind / neighbouring chain id, single-bit "
             "flips of the RLP encoding (all bits for every 12th tx in quick, every 2nd in thorough, a 48-bit sample otherwise), RLP and JSON round trips, malformed JSON spellings per field, JSON inputs with an inconsistent `hash` member (edited / zero / another tx's / removed, "
             "and each signed field edited with the advertised hash kept: Hash() of the decoded object must be the Keccak of its own re-encoding and survive an RLP round trip), "
             "Sender sequences on ONE object under changing signers (cache), object-lifetime sequences (Hash | Size | Sender, then SignTx / WithSignature with the same or "
